@@ -267,6 +267,7 @@ def run(prog, chk):
     join_alternation(prog, chk, "C06.i")
     detach_precondition(prog, chk, "C06.j", fs)
     raw_text_to_nul_readers(prog, chk, "C06.k", fs)
+    stale_text_pointers(prog, chk, "C06.l", fs)
 
 
 def formatted_length(prog, chk, fs):
@@ -577,3 +578,104 @@ def raw_text_to_nul_readers(prog, chk, rid, fs):
     if seen_sources < 30 or "String::compare" not in scanned:
         raise AnalysisBroken("C06.k: only %d raw text expressions examined / the NUL-scanner summary lost String::compare" % seen_sources)
     chk.ok(rid, "String", "%d raw text expressions of %d members followed to their readers" % (seen_sources, len(fs)), "include/nstd/String.hpp", "flow of <payload>->str into NUL-dependent readers", nontrivial=False)
+
+
+def _may_detach(fs):
+    """names (qualified, with signature) of the String members that may replace the text block: detach, the terminating C-string views,
+    and every member that calls one of them on this object (closure over the call graph of the class)"""
+    own_calls = {}
+    for f in fs:
+        cs = set()
+        for c in q.calls(f):
+            n = f.nodes[c]
+            if n["k"] not in ("CXXMemberCallExpr", "CXXOperatorCallExpr") and not (n.get("callee") or "").startswith("String::operator"):
+                continue
+            o = q.call_object(f, c)
+            if n["k"] == "CXXMemberCallExpr" and (o is None or f.nodes[o]["k"] == "CXXThisExpr" or q.no_casts(f.r(o)) in ("this", "*this")):
+                cs.add(n.get("csig") or n.get("callee"))
+        own_calls[f.sig] = cs
+    base = set(f.sig for f in fs if f.short == "detach" or f.short.startswith("operator const char") or f.short.startswith("operator char"))
+    names = {}
+    for f in fs:
+        names.setdefault(f.d.get("csig_self") or f.sig, f)
+    may = set(base)
+    changed = True
+    while changed:
+        changed = False
+        for f in fs:
+            if f.sig in may:
+                continue
+            if any(any(c and (c == g or c in g or g.endswith(c)) for g in may) for c in own_calls[f.sig]):
+                may.add(f.sig)
+                changed = True
+    return may
+
+
+def stale_text_pointers(prog, chk, rid, fs):
+    """A pointer into the text block (taken from data->str or from the C-string view) dies when the block is replaced: no use of such a
+    pointer after a call on this String that may detach (detach itself, the terminating views, members that use them - find(), ...)."""
+    chk.rule(rid, "ALIAS: a local that holds a pointer into this String's text is not used after a call on this String that may replace the "
+                  "text block (callee summary: detach, the terminating C-string views and their callers)", floor=0)
+    may = _may_detach(fs)
+    short_may = set(x.split("(")[0] for x in may)
+    n_carriers = 0
+    for f in fs:
+        if f.short == "detach":
+            continue
+        defs = q.local_defs(f)
+
+        def is_source(x):
+            nx = f.nodes[x]
+            if nx["k"] == "MemberExpr" and nx.get("m") == "str" and nx["c"] and q.no_casts(f.r(nx["c"][0])) in ("this->data", "data"):
+                return True
+            if nx["k"] == "CXXMemberCallExpr" and (nx.get("callee") or "").startswith("String::operator const char") :
+                o = q.call_object(f, x)
+                return o is None or q.no_casts(f.r(o)).lstrip("*(").rstrip(")") == "this"
+            return False
+        events = []
+        for c in q.calls(f):
+            n = f.nodes[c]
+            if n["k"] != "CXXMemberCallExpr":
+                continue
+            o = q.call_object(f, c)
+            if not (o is None or f.nodes[o]["k"] == "CXXThisExpr" or q.no_casts(f.r(o)).lstrip("*(").rstrip(")") == "this"):
+                continue
+            sig_ = n.get("csig") or ""
+            if sig_ in may or any(sig_ and (sig_ in g or g.endswith(sig_)) for g in may) or (not sig_ and (n.get("callee") or "") in short_may):
+                events.append(c)
+        for did, dl in defs.items():
+            for kind, nd, init in dl:
+                if init is None or kind == "addr":
+                    continue
+                if not any(is_source(x) for x in [f.strip(init)] + list(f.desc(init))):
+                    continue
+                if any(f.nodes[y]["k"] == "ArraySubscriptExpr" or (f.nodes[y]["k"] == "UnaryOperator" and f.nodes[y].get("op") == "*") for y in [f.strip(init)] + list(f.desc(init))):
+                    continue       # a character, not a pointer
+                ty = next((d_.get("t") for n_ in f.nodes if n_["k"] == "DeclStmt" for d_ in n_["decls"] if d_["id"] == did), "") or ""
+                if "*" not in ty:
+                    continue
+                n_carriers += 1
+                nm = next((n_["ref"]["n"] for n_ in f.nodes if n_["k"] == "DeclRefExpr" and n_["ref"].get("id") == did), "?")
+                uses = [i for i, n_ in enumerate(f.nodes) if n_["k"] == "DeclRefExpr" and n_["ref"].get("id") == did and f.node_pos(i) is not None]
+                others = [x[1] for x in dl if x[1] != nd and x[2] is not None]
+                bad = None
+                for ev in events:
+                    if ev in f.desc(init) or f.strip(init) == ev or not q.reaches(f, nd, ev):
+                        continue
+                    for u in uses:
+                        # the use sees this definition if no other definition lies between the event and the use
+                        if f.node_pos(u) != f.node_pos(ev) and q.reaches(f, ev, u, avoid_nodes=others) and ev not in f.desc(u):
+                            bad = (ev, u)
+                            break
+                    if bad:
+                        break
+                if bad:
+                    chk.bad(rid, f, "text-pointer-used-after-possible-detach:" + nm, f.where(bad[1]),
+                            "`%s` points into the text block (%s) and is used after `%s`, which may replace that block (it goes through the "
+                            "terminating C-string view / detach): for a String attached to unterminated text, or a shared one, the pointer then "
+                            "refers to the old block" % (nm, q.no_casts(f.r(init))[:40], f.r(bad[0])[:40]), evals=len(events) * max(1, len(uses)))
+                else:
+                    chk.ok(rid, f, "text pointer `%s` not used across a possible detach" % nm, f.where(nd), "%d possible-detach events" % len(events), evals=max(1, len(events)))
+    chk.ok(rid, "String", "%d locals holding text pointers in %d members examined; %d members may detach" % (n_carriers, len(fs), len(may)), "include/nstd/String.hpp", "call-graph closure", nontrivial=False)
+    if len(may) < 6:
+        raise AnalysisBroken("C06.l: may-detach summary has only %d members" % len(may))
